@@ -334,7 +334,7 @@ def run(c):
         cfgs += [("dropfull", dict(wait=["c1"], cached=["c2"], handle=["c3"], nw=2, maxfetch=1, cancel=["c1"], reclaim=True, used=True)),
                  ("refetch", dict(wait=["c1", "c2"], nw=2, maxfetch=2, reclaim=False, used=True)),
                  ("twokeys", dict(wait=["c1", "c2"], key2=["c2"], nw=2, keys="{1, 2}", maxfetch=1, reclaim=True))]
-    need = ["FirstPoll", "FetchReturn", "Finish", "StopExit", "ExitUpgrade", "ExitRemove", "ExitNotify", "ExitClear", "Start", "Ensure",
+    need = ["FirstPoll", "BeginFetch", "FetchReturn", "Finish", "StopExit", "ExitUpgrade", "ExitRemove", "ExitNotify", "ExitClear", "Start", "Ensure",
             "ActiveLoad", "CheckReg", "Wake", "Final", "Stop", "Drop", "IdleCheck"]
     for name, k in cfgs:
         if "mc" not in stages:
